@@ -439,13 +439,24 @@ pub fn gen_mixed(r: &mut Rng, max_samples: f64, n_seg: usize) -> History {
     let mut tg = TimeGen { eff: None };
     let mut ops = vec![Op::SetTime(tg.request(pick_time(r, fs, max_samples)))];
     // whole histories at other signal scales (fine pitch offsets, large control values)
-    let scale = *r.pick(&[1.0f32, 1.0, 1.0, 1e-2, 1e-4, 3e-5, 1e2]);
+    // (up to 3e38: the largest level drawn is 1e3 * scale, which must stay finite through b0*x + b1*x1 - a1*y1)
+    let scale = *r.pick(&[1.0f32, 1.0, 1.0, 1e-2, 1e-4, 3e-5, 1e2, 1e20, 3e35, 1e-30]);
     let pick_level = |r: &mut Rng| pick_level(r) * scale;
     for _ in 0..n_seg {
         let teff = tg.eff.unwrap().min(10.0) as f64;
         let nt = (teff * fs as f64).max(4.0);
         match r.below(10) {
-            0 | 1 => ops.push(Op::SetTime(tg.request(pick_time(r, fs, max_samples)))),
+            0 | 1 => {
+                ops.push(Op::SetTime(tg.request(pick_time(r, fs, max_samples))));
+                // half of the time the input that was being held stays put across the change
+                if r.chance(0.5) {
+                    if let Some(Op::Hold(x, _)) = ops.iter().rev().find(|o| matches!(o, Op::Hold(_, _))).cloned() {
+                        if matches!(ops[ops.len() - 2], Op::Hold(_, _)) {
+                            ops.push(Op::Hold(x, 8 + r.below(60)));
+                        }
+                    }
+                }
+            }
             2 => {
                 let (a, b) = (pick_level(r), pick_level(r));
                 ops.push(Op::Noise(r.next_u64(), 1 + r.below(200), a.min(b), a.max(b)));
@@ -496,8 +507,26 @@ pub fn gen_dead_band(r: &mut Rng) -> History {
     let mut t = r.uniform(lo, 0.9);
     let mut ops = Vec::new();
     let mut level = 1.0f32;
-    let style = r.below(4);
+    let style = r.below(5);
     for k in 0..(6 + r.below(10)) {
+        if style == 4 {
+            // A ... B, A' back to back (no sample processed in between): B is honoured, then A' is honoured
+            let a = r.uniform(lo, 0.9) as f32;
+            let b = (a as f64 + r.uniform(0.08, 0.5) * if r.chance(0.5) { 1.0 } else { -1.0 }).clamp(lo, 1.0) as f32;
+            let a2 = (a as f64 + r.uniform(-0.045, 0.045)).clamp(lo, 1.0) as f32;
+            for (j, tt) in [a, b, a2].into_iter().enumerate() {
+                let sent = tg.request(tt);
+                ops.push(Op::SetTime(sent));
+                if j == 0 || j == 2 {
+                    let teff = tg.eff.unwrap() as f64;
+                    let pa = pole(teff, fs as f64);
+                    let win = ((0.7f64).ln() / pa.ln()).ceil().max(4.0) as u64;
+                    level = if level > 0.0 { -1.0 - r.unit() as f32 } else { 1.0 + r.unit() as f32 };
+                    ops.push(Op::Hold(level, win + 6));
+                }
+            }
+            continue;
+        }
         let req = match style {
             0 => t + 0.04 * k as f64,                                           // drift chain: each step is inside the band of the previous request
             1 => t + if k % 2 == 0 { 0.0 } else { r.uniform(-0.049, 0.049) },   // flapping inside the band
@@ -524,7 +553,34 @@ pub fn run_and_record(h: &History, want: &str, rep: &mut Report, sample: bool) {
         rep.sample(h.brief());
     }
     if let Some(v) = execute(h, want, rep) {
-        rep.violate(v);
+        rep.violate(shrink(h, want, v));
+    }
+}
+
+pub fn shrink(h: &History, want: &str, v: Violation) -> Violation {
+    let base = match Text::parse(&v.replay).ok().and_then(|t| History::parse(&t).ok()) {
+        Some(c) => c,
+        None => return v,
+    };
+    let total: u64 = base.ops.iter().map(|o| match o {
+        Op::Hold(_, n) | Op::Noise(_, n, _, _) => *n,
+        _ => 1,
+    }).sum();
+    if base.ops.len() > 2000 || total > 300_000 {
+        return v;
+    }
+    let sig = v.signature.clone();
+    let fails = |ops: &[Op]| {
+        let hh = History { fs: h.fs, ops: ops.to_vec() };
+        let mut scratch = Report::new();
+        matches!(execute(&hh, want, &mut scratch), Some(x) if x.signature == sig)
+    };
+    let ops = crate::report::shrink_ops(&base.ops, 400, fails);
+    let hh = History { fs: h.fs, ops };
+    let mut scratch = Report::new();
+    match execute(&hh, want, &mut scratch) {
+        Some(x) if x.signature == sig => x,
+        _ => v,
     }
 }
 
